@@ -137,6 +137,8 @@ EXPORT errno_t _memmove_s_chk(void *dest, rsize_t dmax, const void *src,
     if (srcbos == BOS_UNKNOWN) {
         BND_CHK_PTR_BOUNDS(src, slen);
     } else if (unlikely(slen > srcbos)) {
+        mem_prim_set(dest, dmax, 0);
+        MEMORY_BARRIER;
         invoke_safe_mem_constraint_handler("memmove_s: slen exceeds src",
                                            (void *)src, EOVERFLOW);
         return (RCNEGATE(EOVERFLOW));
